@@ -59,6 +59,15 @@ type Case struct {
 	Verbose bool
 	Flavour string
 	Dir     string // scratch directory of this worker
+	hb      func()
+}
+
+// Heartbeat tells the parent's watchdog that a long case is still making
+// progress (the verdict of a hang is about the absence of progress).
+func (c *Case) Heartbeat() {
+	if c.hb != nil {
+		c.hb()
+	}
 }
 
 func (c *Case) Violate(sig, msg string, detail interface{}) {
@@ -717,6 +726,9 @@ func runWorkerMain(ck *Check, tier string, seed uint64, cases []int, outPath, di
 		res := &Result{Index: idx, Status: "held"}
 		c := &Case{ID: ck.ID, Tier: tier, Seed: seed, Index: idx, R: NewRng(seed, ck.ID, idx), Res: res,
 			Verbose: verbose, Flavour: flavour, Dir: dir}
+		if out != nil {
+			c.hb = func() { out.Write([]byte("{\"hb\":1}\n")) }
+		}
 		ck.Run(c)
 		// quiescent point: a finalizer panic (dirty tree collected) is
 		// attributed to the case that just ended
